@@ -202,28 +202,46 @@ def impl_terminal(meth, kwargs):
 
 
 def make_cls(default):
+    from typing import Iterable
+
     class Evt:
         def pt(self, scale: float = default) -> float:
+            ...
+
+        def ok(self, scale: float = default) -> bool:
+            ...
+
+        def many(self, scale: float = default) -> Iterable[float]:
             ...
     return Evt
 
 
-def impl_default(d):
+def impl_default(d, op="Select"):
     from func_adl import ObjectStream
 
     Evt = make_cls(d)
     s = ObjectStream[Evt](ast.Name(id="ds", ctx=ast.Load()), Evt)
     try:
-        q = s.Select(lambda e: e.pt())
+        if op == "Select":
+            q = s.Select(lambda e: e.pt())
+        elif op == "Where":
+            q = s.Where(lambda e: e.ok())
+        else:
+            q = s.SelectMany(lambda e: e.many())
         return ("ok", q.query_ast)
     except Exception as ex:  # noqa
         return ("exc", type(ex).__name__)
 
 
-def impl_capture(v):
+def impl_capture(v, op="Select"):
     s = ds()
     try:
-        q = s.Select(lambda e: (e.x, v))
+        if op == "Select":
+            q = s.Select(lambda e: (e.x, v))
+        elif op == "Where":
+            q = s.Where(lambda e: (e.x, v) == e.y)
+        else:
+            q = s.SelectMany(lambda e: (e.x, v))
         return ("ok", q.query_ast)
     except Exception as ex:  # noqa
         return ("exc", type(ex).__name__)
